@@ -114,6 +114,9 @@ def run(ctx, rep):
     n_shared = scan_shared_readonly(ctx, eff, rep, region, whitelisted, "P1", exempt_scopes=())
     rep.floor("P1", 8, "shared tables read by the translators")
 
+    # P10: interpreter-wide state is not written either (it outlives the call like module state does)
+    from rules.shared import check_no_process_global_writes
+    check_no_process_global_writes(ctx, rep, region, "P10")
     # P2b: nothing table-dependent is stored in module state outside the table memos
     from rules.shared import check_history_independence
     check_history_independence(ctx, rep, "P2")
